@@ -69,7 +69,7 @@ _p("C04", probes_quick=["tracker_history", "tracker_lifecycle_c03", "tracker_kin
    technique="Kani recording-stub harness on compatible()/apply; Verus postconditions on EpochDb extract",
    assumptions=K + V,
    not_covered=["grouping/boxes/epochs equal with and without interleaved other scenes (hyperproperty over histories)"])
-_p("C07", probes_quick=["kalman_box_c07", "kalman_point_c07", "tracker_kinds"],
+_p("C07", probes_quick=["kalman_box_c07", "kalman_point_c07", "tracker_kinds", "kalman_prediction_c07"],
    level_text=PROOF_TEXT + "Decides the cost-conversion clauses of C07 for every finite d >= 0 (same gate for direct and inverted, inverted = 100 - direct) as Kani function contracts plus a lemma over the contract; vector-filter independence is a bounded stand-in.",
    level_note="Textbook recurrence, SPD of the covariance, Mahalanobis distance value, stationary prediction and vector-filter independence are BOUNDED stand-ins only (probes kalman_box_c07 / kalman_point_c07 against an independent f64 reference filter): nalgebra f32 10x10 algebra is out of CBMC's reach (measured) and floats are uninterpreted in Verus.",
    technique="Kani function contracts (requires/ensures + proof_for_contract + stub_verified lemma)",
